@@ -171,6 +171,19 @@ add("C14", EXPL.replace("all schedules and environment-deviation patterns", "all
     "that does not fit the 512-byte field. Data-path deviations limited to EAGAIN. xcmc's blocking recv yields to the scheduler (one seam).",
     "DESIGN.md 2/C14")
 
+add("C10",
+    "exhaustive input enumeration (socket state x attribute name x capacity x getter; name x type x length x value for set) against the ASan "
+    "build, canary plus exact-heap-block buffers with two fill patterns, one forked child per name group",
+    "Sockets of every transport (ux, uxf, tcp, btcp, tls, btls, utls and utls forced onto its TLS leg) are brought into every reachable state "
+    "(server, resolving, connecting, handshaking, established on both ends, closing, closed, reset, connect timeout, DNS timeout; fresh sockets "
+    "through the creation maps) and every attribute name (the socket's own, every documented name, list elements [i] for i <= len+1, interior "
+    "nodes, a malformed/limit family) is read through 13 getters + get_list_len at every capacity 0..size+2 into a buffer whose written bytes are "
+    "known exactly, and written through five value types x lengths {0,1,size-1,size,size+1,4096} x values with an xcm_attr_get_all snapshot "
+    "compared after every rejected set. quick 115 cells / 0.98 M library calls; thorough 250 cells / 6.3 M.",
+    "Value validity is taken from xcm.h only; other values may succeed or be rejected, but a rejection must leave the socket unchanged. When "
+    "several set errors apply any applicable errno is accepted; interior nodes may answer ENOENT or EACCES. Odd index spellings are checked for "
+    "memory safety only. No environment deviations (input enumeration).", "DESIGN.md 2/C10", engine="enumerator")
+
 
 def main():
     man = dict(
